@@ -249,6 +249,13 @@ def run(tier, pid="C14"):
                 rep.violation(clause, signature(scen, clause), {"scenario": scen}, expected=exp, observed=obs)
     if n == 0:
         raise tlc.MachineryError("C14: no scenarios exported")
+    # AsyncRunTest.tla abstracts the Spinner to what C15 establishes (result of run(), junk, restoration - including
+    # the same-reactor-pass races that need a busy reactor): that assumption is discharged here by running C15's
+    # check as part of this one
+    from .common import run_subcheck
+
+    run_subcheck(rep, "c15", "C15", tier, "c15")
+    rep.assume("Spinner behaviour (AsyncRunTest.tla's abstraction of it) is established by the C15 sub-check run inside this check")
     return rep.finish()
 
 
